@@ -928,6 +928,7 @@ func c15GenScenario(c *Ctx, idx int) *c15Scn {
 	for _, i := range r.Perm(len(c15FileNames))[:nf] {
 		names = append(names, c15FileNames[i])
 	}
+	openings := idx%2 == 0 && nf >= 2 // every included file opens with an entry of the same date (seed r5-C15)
 	many := idx%4 == 1 // more than 12 tied candidates: an unstable sort may reorder them
 	huge := idx%10 == 7 // more than MaxResults (50) candidates
 	day := 0
@@ -944,6 +945,12 @@ func c15GenScenario(c *Ctx, idx int) *c15Scn {
 			fmt.Fprintf(&sb, "commodity 1,000.00 %s\n", pick(r, c15Commodities))
 		}
 		sb.WriteString("\n")
+		if openings {
+			// per-file opening entries: the SAME earliest date, payee, account and commodity in
+			// several included files (go-to-definition of an undeclared name jumps to its earliest
+			// usage: with a tie across files the answer must still be one and the same)
+			fmt.Fprintf(&sb, "2023-12-31 Opening balances\n    equity:opening  -%d XAU\n    assets:bank\n\n", 1+r.IntN(9))
+		}
 		nt := 2 + r.IntN(4)
 		for t := 0; t < nt; t++ {
 			day++
@@ -993,6 +1000,12 @@ func c15GenScenario(c *Ctx, idx int) *c15Scn {
 		day++
 		mb.WriteString(c15Unbalanced(r, day%300, k))
 		c.Count(fmt.Sprintf("unbalanced.k=%d", k))
+	}
+	openLine := -1
+	if openings {
+		c.Count("openings")
+		openLine = strings.Count(mb.String(), "\n")
+		mb.WriteString("2024-11-30 Opening balances\n    equity:opening  1 XAU\n    assets:cash\n\n")
 	}
 	mainText := mb.String()
 	scn.Files[c15Root] = mainText
@@ -1112,6 +1125,14 @@ func c15GenScenario(c *Ctx, idx int) *c15Scn {
 					c15Site{Name: "hover.commodity", Kind: "opaque", Doc: c15Root, Line: li + 1, Char: ccol + 1, Arg: "hover"})
 			}
 			break
+		}
+	}
+	if openLine >= 0 {
+		for _, k := range []string{"definition", "references", "hover"} {
+			sites = append(sites,
+				c15Site{Name: k + ".tied.payee", Kind: "opaque", Doc: c15Root, Line: openLine, Char: 13, Arg: k},
+				c15Site{Name: k + ".tied.account", Kind: "opaque", Doc: c15Root, Line: openLine + 1, Char: 7, Arg: k},
+				c15Site{Name: k + ".tied.commodity", Kind: "opaque", Doc: c15Root, Line: openLine + 1, Char: 23, Arg: k})
 		}
 	}
 	sites = append(sites,
